@@ -199,3 +199,8 @@ func (p *Program) CHA() *callgraph.Graph {
 	}
 	return p.chaCG
 }
+
+// IsModuleFunc reports whether fn is a source function of the analysed module.
+func (p *Program) IsModuleFunc(fn *ssa.Function) bool {
+	return fn != nil && fn.Pkg != nil && fn.Pkg.Pkg != nil && strings.HasPrefix(fn.Pkg.Pkg.Path(), Mod) && fn.Blocks != nil
+}
